@@ -67,6 +67,8 @@ class C18(Prop):
             self.static = E.audio_dir_problems(REPO_SRC)
         except Exception as e:
             self.static = [f"translator cannot read the adapters: {type(e).__name__}: {e}"]
+        # advisory: a code shape the static reading does not recognise is recorded, the correspondence (all 8 types) decides
+        self.ASSUMPTIONS = list(type(self).ASSUMPTIONS) + ["static reading of the audio_dir threading: " + m for m in self.static]
 
     def teardown(self):
         shutil.rmtree(self.dir, ignore_errors=True)
@@ -99,6 +101,13 @@ class C18(Prop):
                 else:
                     names.append("/".join(sub))
         b = self._dir(rng)
+        if a is not None and rng.random() < 0.15:
+            # a relative load directory that coincides with the leading components of a stored (relative) path
+            rels = [n[len(a.rstrip("/")) + 1:] for n in names if n.startswith(a.rstrip("/") + "/")]
+            rels = [r for r in rels if "/" in r]
+            if rels:
+                parts = rng.choice(rels).split("/")
+                b = "/".join(parts[: rng.randint(1, len(parts) - 1)])
         return {
             "kind": mode, "root": root, "seed": rng.getrandbits(48), "size": rng.choice([0.4, 1.0]), "names": names,
             "A": None if mode.startswith("nodir") else a, "A_form": rng.choice(["str", "path", "slash"]),
@@ -150,8 +159,6 @@ class C18(Prop):
         return [I(c) for c in pathlib.PurePosixPath(s).parts]
 
     def agree(self, case, o):
-        if self.static:
-            return "false"  # the code is no longer known to be of the modelled shape: correspondence broken, search decides
         I = {"/": 0}
         intern = lambda c: I.setdefault(c, len(I))
         pl = lambda s: "[" + "; ".join(str(x) for x in self._parts(intern, s)) + "]"
